@@ -13,6 +13,7 @@ import DdnnfVerif.Model.Atomic
 import DdnnfVerif.Model.D4Load
 import DdnnfVerif.Model.StreamMsg
 import DdnnfVerif.Model.Edit
+import DdnnfVerif.Model.TWise
 import DdnnfVerif.Proofs.PDLeaf
 import DdnnfVerif.Proofs.CnfExport
 namespace Ddnnf
@@ -208,6 +209,13 @@ def answer (nodes : List NType) (n : Nat) (kind : String) (args : List String) :
           ";".intercalate ((atomicSets nodes n (cs.filterMap String.toNat?) (parseIntsD As) (cross == "1") []).map fmtInts)
       | [] => "bad-args"
   | "d4load" => d4loadAnswer args
+  | "twise" =>
+      -- `q twise t | cfg ; cfg ; ..` : the verified checker on a sample returned by the real code
+      (match args with
+       | t :: "|" :: rest =>
+           let cfgs := ((splitOnTok ";" rest).filter (!·.isEmpty)).map fun c => c.filterMap String.toInt?
+           TWise.verdict nodes n (t.toNat?.getD 0) cfgs
+       | _ => "bad-args")
   | "addunit" =>
       -- `q addunit f`: the edited feature count and node array
       let f := (args.headD "0").toInt?.getD 0
